@@ -460,6 +460,72 @@ def main():
                     continue
                 record("conversion-blocks-flow:%s:%s" % (cname, opname), repr(x0.tolist()),
                        eq(got, onp.zeros(3) if opname == "rev-only-through" else want), repr(got.tolist()))
+    # ---- (model correspondence) the members whose local constancy is PROVED (Rules/PiecewiseConst.v), at floats taken as the
+    #      dyadic rationals they are: the value f(x) seen under tracing and the gradient of x * f(x), both modes, scalar and
+    #      array arguments, function and operator spellings; compared in Coq with the integer model (Rules/Run14.v) ----
+    out["pc_cases"] = []
+    members = [(0, "floor", lambda m, x, c: m.floor(x)), (1, "ceil", lambda m, x, c: m.ceil(x)), (2, "trunc", lambda m, x, c: m.trunc(x)),
+               (2, "fix", lambda m, x, c: m.fix(x)), (3, "sign", lambda m, x, c: m.sign(x)),
+               (4, "greater", lambda m, x, c: m.greater(x, c)), (4, "x > c", lambda m, x, c: x > c), (6, "c > x", lambda m, x, c: m.greater(c, x)),
+               (5, "greater_equal", lambda m, x, c: m.greater_equal(x, c)), (5, "x >= c", lambda m, x, c: x >= c),
+               (6, "less", lambda m, x, c: m.less(x, c)), (6, "x < c", lambda m, x, c: x < c), (4, "c < x", lambda m, x, c: m.less(c, x)),
+               (7, "less_equal", lambda m, x, c: m.less_equal(x, c)), (7, "x <= c", lambda m, x, c: x <= c),
+               (8, "equal", lambda m, x, c: m.equal(x, c)), (8, "x == c", lambda m, x, c: x == c),
+               (9, "not_equal", lambda m, x, c: m.not_equal(x, c)), (9, "x != c", lambda m, x, c: x != c)]
+
+    def pc_point():
+        k = rng.random()
+        if k < 0.2:
+            return float(rng.randint(-6, 6))                                   # a jump point of floor/ceil/trunc (and of sign at 0)
+        if k < 0.4:
+            return rng.randint(-6, 6) + rng.choice([0.5, 0.25, -0.125])
+        if k < 0.55:
+            return rng.randint(-6, 6) + rng.choice([1, -1]) * 2.0 ** -rng.randint(20, 45)   # next to a jump
+        if k < 0.65:
+            return rng.choice([1, -1]) * (2.0 ** rng.randint(50, 70) + rng.randint(0, 3))    # every such float is an integer
+        if k < 0.75:
+            return rng.choice([1, -1]) * 10.0 ** -rng.randint(5, 300)
+        return rng.uniform(-50, 50)
+
+    def as_int(v):
+        a = onp.asarray(v)
+        f = float(a)
+        if a.shape != () or f != int(f):
+            raise ValueError("not an integer-valued scalar: %r" % (v,))
+        return int(f)
+
+    for i in range(cfg["n"] * 3):
+        code, mname, fn = members[i % len(members)]
+        x0 = pc_point()
+        c0 = x0 if (code >= 4 and rng.random() < 0.2) else (float(rng.randint(-6, 6)) if rng.random() < 0.5 else pc_point())
+        as_array = rng.random() < 0.3
+        seen = []
+
+        def body(x):
+            r = fn(anp, x, c0)
+            seen.append(r)
+            return anp.sum(x * r)
+        arg = onp.array([x0, pc_point()]) if as_array else x0
+        desc = "%s at x=%s c=%s%s" % (mname, float.hex(x0), float.hex(c0), " (first entry of an array)" if as_array else "")
+        try:
+            g_rev = grad(body)(arg)
+            g_fwd = make_jvp(lambda x: x * fn(anp, x, c0))(arg)(onp.ones(2) if as_array else 1.0)[1]
+            if any(has_box(r) for r in seen):
+                record("pc-member-returned-a-box", desc, False, repr(seen[0]))
+                continue
+            v = fn(onp, arg, c0)
+            if not eq(onp.asarray(seen[0]) * 1.0, onp.asarray(v) * 1.0):
+                record("pc-member-value-differs-from-numpy", desc, False, "%r vs %r" % (seen[0], v))
+                continue
+            pick = (lambda t: onp.asarray(t)[0]) if as_array else (lambda t: t)
+            p, q = x0.as_integer_ratio()
+            pc, qc = c0.as_integer_ratio()
+            for mode, g in (("rev", g_rev), ("fwd", g_fwd)):
+                out["pc_cases"].append({"code": code, "name": mname, "mode": mode, "x": float.hex(x0), "c": float.hex(c0), "array": as_array,
+                                        "pq": [p, q], "pcqc": [pc, qc], "v": as_int(pick(v)), "g": as_int(pick(g))})
+            dist("pc-member:" + mname)
+        except Exception as ex:
+            record("pc-member-raised", desc, False, repr(ex))
     out["keys"] = sorted(set(out["keys"]))
     print(json.dumps(out, default=str))
 
